@@ -228,7 +228,170 @@ def extract_html_escapes(defs, consts):
         consts[name] = rows
 
 
-EXTRACTORS = [extract_entity, extract_html_escapes]
+# ---------------------------------------------------------------------------------------------
+# Interning (C08): id widths, built-in registrations of `Xot::new`, clone derivations
+
+ID_TYPES = (("nameIdBits", "src/id/name.rs", "NameId"),
+            ("namespaceIdBits", "src/id/namespace.rs", "NamespaceId"),
+            ("prefixIdBits", "src/id/prefix.rs", "PrefixId"))
+INT_BITS = {"u8": 8, "u16": 16, "u32": 32, "u64": 64, "u128": 128, "usize": 64}
+LOOKUP_TABLES = {"NamespaceLookup": "namespace", "PrefixLookup": "prefix", "NameLookup": "name"}
+# field of `struct Xot` -> (public accessor in nameaccess.rs, table)
+BUILTIN_FIELDS = (("no_namespace_id", "no_namespace", "namespace"),
+                  ("empty_prefix_id", "empty_prefix", "prefix"),
+                  ("xml_namespace_id", "xml_namespace", "namespace"),
+                  ("xml_prefix_id", "xml_prefix", "prefix"),
+                  ("xml_space_id", "xml_space_name", "name"),
+                  ("xml_id_id", "xml_id_name", "name"))
+STRLIT = r'"((?:\\.|[^"\\])*)"'
+
+
+def impl_block(src, ty, containing_fn, what):
+    """Text of the inherent `impl <ty> { … }` block that defines `fn <containing_fn>`."""
+    for m in re.finditer(r"\bimpl\s+" + re.escape(ty) + r"\s*\{", src):
+        depth = 0
+        j = m.end() - 1
+        n = len(src)
+        while j < n:
+            c = src[j]
+            if c == '"':
+                k = j + 1
+                while k < n and src[k] != '"':
+                    k += 2 if src[k] == "\\" else 1
+                j = k + 1
+                continue
+            if c == "'":
+                m2 = re.match(r"'(\\u\{[0-9a-fA-F]+\}|\\.|[^\\'])'", src[j:])
+                if m2:
+                    j += len(m2.group(0))
+                    continue
+            if c == "{":
+                depth += 1
+            elif c == "}":
+                depth -= 1
+                if depth == 0:
+                    break
+            j += 1
+        block = src[m.end():j]
+        if re.search(r"\bfn\s+" + re.escape(containing_fn) + r"\b", block):
+            return block
+    raise ExtractError(f"{what}: no `impl {ty} {{ … }}` block defining `fn {containing_fn}` found")
+
+
+def derives_of(src, ty, what):
+    """Traits in the `#[derive(…)]` attributes directly above `struct <ty>`."""
+    m = re.search(r"((?:#\[[^\]]*\]\s*)*)(?:pub(?:\s*\([^)]*\))?\s+)?struct\s+" + re.escape(ty) + r"\b", src)
+    if not m:
+        raise ExtractError(f"{what}: `struct {ty}` not found")
+    out = []
+    for d in re.findall(r"#\[\s*derive\s*\(([^)]*)\)\s*\]", m.group(1)):
+        out.extend(t.strip() for t in d.split(",") if t.strip())
+    return out
+
+
+def extract_ids(defs, consts):
+    # --- widths -------------------------------------------------------------------------------
+    for lean_name, rel, ty in ID_TYPES:
+        src = strip_comments(read(rel))
+        m = re.search(r"\bstruct\s+" + ty + r"\s*\(\s*(?:pub(?:\s*\([^)]*\))?\s+)?(\w+)\s*\)\s*;", src)
+        if not m:
+            raise ExtractError(f"{lean_name}: `struct {ty}(<integer type>);` not found in {rel}")
+        field_ty = m.group(1)
+        if field_ty not in INT_BITS:
+            raise ExtractError(f"{lean_name}: field type `{field_ty}` of `struct {ty}` in {rel} is not an unsigned integer type")
+        mi = re.search(r"\bimpl\s+IdIndex\s*<\s*" + ty + r"\s*>\s*for\s+" + ty + r"\s*\{", src)
+        if not mi:
+            raise ExtractError(f"{lean_name}: `impl IdIndex<{ty}> for {ty}` not found in {rel}")
+        to_id = re.sub(r"\s+", " ", fn_body(src[mi.start():], "to_id", lean_name)).strip()
+        mc = re.fullmatch(ty + r" ?\( ?index as (\w+) ?\)", to_id)
+        if not mc:
+            raise ExtractError(f"{lean_name}: body of `{ty}::to_id` in {rel} is `{to_id}`, expected `{ty}(index as uN)` (an unchecked cast; anything else needs a new model of `toId`)")
+        if mc.group(1) != field_ty:
+            raise ExtractError(f"{lean_name}: `struct {ty}({field_ty})` but `to_id` casts `index as {mc.group(1)}` in {rel}: the two widths disagree")
+        from_id = re.sub(r"\s+", " ", fn_body(src[mi.start():], "from_id", lean_name)).strip()
+        if not re.fullmatch(r"id ?\. ?0 as usize", from_id):
+            raise ExtractError(f"{lean_name}: body of `{ty}::from_id` in {rel} is `{from_id}`, expected `id.0 as usize`")
+        if "Clone" not in derives_of(src, ty, lean_name) or "Copy" not in derives_of(src, ty, lean_name):
+            raise ExtractError(f"{lean_name}: `struct {ty}` in {rel} no longer derives Clone and Copy")
+        defs.append(f"/-- `struct {ty}({field_ty})`, `to_id`: `index as {mc.group(1)}` ({rel}). -/\ndef {lean_name} : Nat := {INT_BITS[field_ty]}\n")
+        consts[lean_name] = INT_BITS[field_ty]
+    # --- clone is derived (C08_clone / C12 rest on field-wise clones of Vec and HashMap) ------------
+    idmap = strip_comments(read("src/id/idmap.rs"))
+    if "Clone" not in derives_of(idmap, "IdMap", "idMapClone"):
+        raise ExtractError("idMapClone: `struct IdMap` in src/id/idmap.rs does not `#[derive(Clone)]` (a hand-written Clone needs a model)")
+    mf = re.search(r"\bstruct\s+IdMap\b[^{;]*\{([^}]*)\}", idmap)
+    fields = re.sub(r"\s+", "", mf.group(1)).rstrip(",") if mf else None
+    if fields != "by_id:Vec<V>,by_value:HashMap<V,K>":
+        raise ExtractError(f"idMapFields: fields of `struct IdMap` in src/id/idmap.rs are `{fields}`, expected `by_id:Vec<V>,by_value:HashMap<V,K>`")
+    if "Clone" not in derives_of(strip_comments(read("src/id/name.rs")), "Name", "nameClone"):
+        raise ExtractError("nameClone: `struct Name` in src/id/name.rs does not derive Clone")
+    xotdata = strip_comments(read("src/xotdata.rs"))
+    if "Clone" not in derives_of(xotdata, "Xot", "xotClone"):
+        raise ExtractError("xotClone: `struct Xot` in src/xotdata.rs does not `#[derive(Clone)]`")
+    defs.append("/-- `IdMap`, `Name` and `Xot` all `#[derive(Clone)]`: a clone is the field-wise clone. -/\ndef interningCloneIsDerived : Bool := true\n")
+    consts["interningCloneIsDerived"] = True
+    # --- built-in registrations of Xot::new -------------------------------------------------------
+    what = "builtinRegistrations"
+    body = fn_body(impl_block(xotdata, "Xot", "new", what), "new", what)
+    tables = {}
+    for m in re.finditer(r"\blet\s+mut\s+(\w+)\s*=\s*(\w+)\s*::\s*new\s*\(\s*\)\s*;", body):
+        if m.group(2) in LOOKUP_TABLES:
+            tables[m.group(1)] = LOOKUP_TABLES[m.group(2)]
+    if sorted(tables.values()) != ["name", "namespace", "prefix"]:
+        raise ExtractError(f"{what}: expected one `let mut x = NamespaceLookup::new()`, `PrefixLookup::new()` and `NameLookup::new()` each in `Xot::new`, found {tables}")
+    regs = []
+    n_calls = len(re.findall(r"\.\s*get_id_mut\s*\(", body))
+    call = re.compile(r"\blet\s+(\w+)\s*=\s*(\w+)\s*\.\s*get_id_mut\s*\(\s*(?:" + STRLIT +
+                      r"|&\s*Name\s*::\s*new\s*\(\s*" + STRLIT + r"\s*,\s*(\w+)\s*\))\s*\)\s*;")
+    for m in call.finditer(body):
+        var, tvar, lit, nlit, nsvar = m.groups()
+        if tvar not in tables:
+            raise ExtractError(f"{what}: `{tvar}.get_id_mut(…)` in `Xot::new`: `{tvar}` is not one of the lookup tables {sorted(tables)}")
+        t = tables[tvar]
+        if (t == "name") != (nlit is not None):
+            raise ExtractError(f"{what}: `let {var} = {tvar}.get_id_mut(…)`: argument shape does not fit the {t} table")
+        if nsvar is not None and nsvar not in [r[1] for r in regs if r[0] == "namespace"]:
+            raise ExtractError(f"{what}: `Name::new(\"{nlit}\", {nsvar})`: `{nsvar}` is not the result of an earlier namespace registration")
+        regs.append((t, var, unescape(lit if lit is not None else nlit), nsvar))
+    if len(regs) != n_calls:
+        raise ExtractError(f"{what}: `Xot::new` contains {n_calls} get_id_mut calls but only {len(regs)} have the shape `let v = table.get_id_mut(\"…\" | &Name::new(\"…\", ns_var));`")
+    ml = re.search(r"\bXot\s*\{(.*)\}\s*$", body, flags=re.S)
+    if not ml:
+        raise ExtractError(f"{what}: `Xot::new` does not end in a `Xot {{ … }}` literal")
+    lit_fields = [re.sub(r"\s+", " ", f).strip() for f in ml.group(1).split(",") if f.strip()]
+    nameaccess = strip_comments(read("src/nameaccess.rs"))
+    for field, accessor, t in BUILTIN_FIELDS:
+        mine = [r for r in regs if r[1] == field]
+        if len(mine) != 1 or mine[0][0] != t:
+            raise ExtractError(f"{what}: expected exactly one `let {field} = <{t} table>.get_id_mut(…)` in `Xot::new`")
+        if field not in lit_fields:
+            raise ExtractError(f"{what}: field `{field}` is not initialised by shorthand from the variable `{field}` in the `Xot {{ … }}` literal of `Xot::new`")
+        acc = re.sub(r"\s+", "", fn_body(nameaccess, accessor, what))
+        if acc != f"self.{field}":
+            raise ExtractError(f"{what}: accessor `{accessor}` in src/nameaccess.rs returns `{acc}`, expected `self.{field}`")
+    for tvar, t in tables.items():
+        want = {"namespace": "namespace_lookup", "prefix": "prefix_lookup", "name": "name_lookup"}[t]
+        if tvar != want or want not in lit_fields:
+            raise ExtractError(f"{what}: the {t} table of `Xot::new` is `{tvar}`; expected variable and shorthand field `{want}`")
+    extra = [r[1] for r in regs if r[1] not in [f for f, _a, _t in BUILTIN_FIELDS]]
+    if extra:
+        raise ExtractError(f"{what}: `Xot::new` registers values bound to {extra}, which have no known accessor (extend BUILTIN_FIELDS and the model)")
+    defs.append("inductive RegTable where\n  | namespace | prefix | name\n  deriving DecidableEq, Repr\n")
+    defs.append("/-- One `let field = table.get_id_mut(value)` of `Xot::new`; for the name table the value is\n    `Name::new(value, nsField)`. -/\n"
+                "structure BuiltinReg where\n  table : RegTable\n  field : List Char\n  value : List Char\n  nsField : Option (List Char)\n  deriving DecidableEq, Repr\n")
+    rows = []
+    for t, var, val, nsvar in regs:
+        ns = "none" if nsvar is None else f"some {lean_str(nsvar)}"
+        rows.append(f"  ⟨.{t}, {lean_str(var)}, {lean_str(val)}, {ns}⟩")
+    defs.append("/-- The `get_id_mut` calls of `Xot::new` (src/xotdata.rs), in source order. -/\n"
+                "def builtinRegistrations : List BuiltinReg := [\n" + ",\n".join(rows) + "]\n")
+    consts["builtinRegistrations"] = [[t, var, val, nsvar] for t, var, val, nsvar in regs]
+    xml_ns = [r[2] for r in regs if r[1] == "xml_namespace_id"][0]
+    defs.append(f"/-- The literal registered as `xml_namespace_id`. -/\ndef xmlNs : List Char := {lean_str(xml_ns)}\n")
+    consts["xmlNs"] = xml_ns
+
+
+EXTRACTORS = [extract_entity, extract_html_escapes, extract_ids]
 
 
 def main():
